@@ -441,11 +441,12 @@ func checkCacheStoresOnlySuccess(c *Ctx, rule string) {
 func checkUnwindCoversStep(c *Ctx, rule string) {
 	w := c.W
 	del := w.Fn("shovel", "(*Task).Delete")
+	reg := NewRegion(del) // Delete with its single-use helpers inlined
 	sites := sqlSites(w)
 	var cursorDelete, remaining *SQLSite
 	for i := range sites {
 		s := &sites[i]
-		if s.Fn != del || s.Stmt == nil {
+		if !reg.Has(s.Fn) || s.Stmt == nil {
 			continue
 		}
 		for _, b := range s.Stmt.Blocks {
@@ -461,7 +462,7 @@ func checkUnwindCoversStep(c *Ctx, rule string) {
 		}
 	}
 	var destDel ssa.CallInstruction
-	for _, ci := range callsIn(del) {
+	for _, ci := range reg.Calls() {
 		if ci.Common().IsInvoke() && ci.Common().Method.Name() == "Delete" {
 			destDel = ci
 		}
@@ -484,29 +485,23 @@ func checkUnwindCoversStep(c *Ctx, rule string) {
 			}
 		}
 		arg := destDel.Common().Args[len(destDel.Common().Args)-1]
+		// the expressions the argument can be: through phis, min(), and the results of inlined helpers
 		var leaves []ssa.Value
 		seen := map[ssa.Value]bool{}
 		var walk func(v ssa.Value)
 		walk = func(v ssa.Value) {
-			if seen[v] {
-				return
-			}
-			seen[v] = true
-			switch x := v.(type) {
-			case *ssa.Phi:
-				for _, e := range x.Edges {
-					walk(e)
+			for _, l := range reg.Leaves(v) {
+				if seen[l] {
+					continue
 				}
-			case *ssa.Call:
-				if calleeName(x) == "builtin min" {
+				seen[l] = true
+				if x, ok := l.(*ssa.Call); ok && calleeName(x) == "builtin min" {
 					for _, a := range x.Call.Args {
 						walk(a)
 					}
-					return
+					continue
 				}
-				leaves = append(leaves, v)
-			default:
-				leaves = append(leaves, v)
+				leaves = append(leaves, l)
 			}
 		}
 		walk(arg)
@@ -533,7 +528,8 @@ func checkUnwindCoversStep(c *Ctx, rule string) {
 				keyed = true
 			}
 		}
-		if ok && !(dominatesInstr(cursorDelete.Call, remaining.Call) && dominatesInstr(remaining.Call, destDel) && keyed && stripConv(remaining.Recv) == stripConv(cursorDelete.Recv)) {
+		sameHandle := reg.Resolve(stripConv(remaining.Recv)) == reg.Resolve(stripConv(cursorDelete.Recv))
+		if ok && !(reg.Dominates(cursorDelete.Call, remaining.Call) && reg.Dominates(remaining.Call, destDel) && keyed && sameHandle) {
 			ok, detail = false, "the remaining position must be read on the same handle, keyed by this task, after the cursor delete and before the rows are deleted"
 		}
 		if ok {
